@@ -1302,7 +1302,8 @@ private:
 
   bool _parseString(Json &out)
   {
-    if (_text[_pos] != '"')
+    // Reached from _parseObject with _pos == size() when the input ends where a key is expected.
+    if (_pos >= _text.size() || _text[_pos] != '"')
     {
       _error = "Expected '\"'";
       return false;
